@@ -12,14 +12,16 @@ Record config := mkConfig {
   c_validate : list (option val);    (* what the trait's validate does to pool[i] *)
   c_default : val;
   c_kind : tkind;
-  c_handlers : list handler
+  c_handlers : list handler;
+  c_store_original : bool
 }.
 
 Definition tbl (m : list (list cmp)) (a b : val) : cmp := nth b (nth a m []) CRaise.
 Definition env_of (c : config) : env :=
   {| e_eq := tbl (c_eq c); e_ne := tbl (c_ne c);
      e_validate := fun v => nth v (c_validate c) None;
-     e_default := c_default c; e_kind := c_kind c; e_handlers := c_handlers c |}.
+     e_default := c_default c; e_kind := c_kind c; e_handlers := c_handlers c;
+     e_store_original := c_store_original c |}.
 
 Definition case := (config * list (op * obs))%type.
 
